@@ -24,6 +24,12 @@ def write_series_dir(r, tier, d, nser=None):
             C18.write_ds(ds, os.path.join(d, 'im%03d.dcm' % k))
             k += 1
         out.append(series)
+    if r.random() < 0.3:
+        # a dataset without pixels in the same directory: skipped with a warning by grouping
+        from . import synth
+        ds = synth.make_ds([0, 0, 0], [1, 0, 0, 0, 1, 0], 2, 2, [1, 1], None, with_pixels=False, uid='1.2.9.77',
+                           meta={'SeriesInstanceUID': '1.2.3.100', 'SeriesNumber': 1, 'ProtocolName': 'prot 0'})
+        C18.write_ds(ds, os.path.join(d, 'zz_nonimage.dcm'))
     return out
 
 
@@ -44,12 +50,22 @@ def run_cli_inproc(argv):
     buf = io.StringIO()
     with warnings.catch_warnings():
         warnings.simplefilter('ignore')
+        # process-global state an invocation has no business changing
+        before = (list(warnings.filters), dict(os.environ), os.getcwd(), list(sys.path))
         with contextlib.redirect_stdout(buf), contextlib.redirect_stderr(io.StringIO()):
             try:
                 rc = dcmstack_cli.main(['dcmstack'] + argv)
             except SystemExit as e:
                 rc = e.code
+            except Exception as e:
+                rc = 'raised %r' % (e,)
+        after = (list(warnings.filters), dict(os.environ), os.getcwd(), list(sys.path))
+        LEAKS[:] = [n for n, a, b in zip(('warnings.filters', 'os.environ', 'cwd', 'sys.path'), before, after) if a != b]
+        os.chdir(before[2])
     return rc, buf.getvalue()
+
+
+LEAKS = []
 
 
 def run_cli_fresh(argv, module='dcmstack_cli', stdin=None):
@@ -72,10 +88,11 @@ def api_reference(src_dir, opts):
     flt = dcmstack.make_key_regex_filter(excl, incl)
     with warnings.catch_warnings():
         warnings.simplefilter('ignore')
-        groups = dcmstack.parse_and_group(paths, dcmstack.default_group_keys, extractor, False, True)
+        warn = not opts.get('strict')
+        groups = dcmstack.parse_and_group(paths, dcmstack.default_group_keys, extractor, False, warn)
         out = []
         for key, group in groups.items():
-            st = dcmstack.stack_group(group, warn_on_except=True, time_order=dcmstack.DicomOrdering(opts['time_var']) if opts.get('time_var') else None,
+            st = dcmstack.stack_group(group, warn_on_except=warn, time_order=dcmstack.DicomOrdering(opts['time_var']) if opts.get('time_var') else None,
                                       vector_order=None, meta_filter=flt)
             nii = CS.quiet(st.to_nifti, opts.get('voxel_order', 'LAS'), bool(gen_meta))
             jd = None
@@ -99,6 +116,8 @@ def argv_of(src, dest, opts):
         a += ['--voxel-order', opts['voxel_order']]
     if opts.get('time_var'):
         a += ['-t', opts['time_var']]
+    if opts.get('strict'):
+        a.append('--strict')
     for e in opts.get('excl', []):
         a += ['-e', e]
     for i in opts.get('incl', []):
@@ -110,9 +129,13 @@ def gen_opts(r):
     o = {'embed': r.random() < 0.7, 'dump': r.random() < 0.3, 'voxel_order': r.choice(['LAS', 'RAS', 'LPI', '']),
          'time_var': 'EchoTime', 'ext': r.choice(['.nii.gz', '.nii'])}
     if r.random() < 0.5:
-        o['excl'] = r.sample(['Echo', 'Window', 'Sequence', 'Number', 'ImageType'], r.randint(1, 2))
+        # plain words and real regular expressions (bounded repeats contain a comma)
+        o['excl'] = r.sample(['Echo', 'Window', 'Sequence', 'Number', 'ImageType', '^S[a-z]{5,8}Name$',
+                              'Echo.{0,3}Time', '^(Window|Rescale)[A-Z]'], r.randint(1, 2))
+    if r.random() < 0.25:
+        o['strict'] = True
     if r.random() < 0.3:
-        o['incl'] = r.sample(['SeriesInstanceUID', 'PatientName', 'StudyDate'], 1)
+        o['incl'] = r.sample(['SeriesInstanceUID', 'PatientName', 'StudyDate', '^Patient.{0,2}Position$'], 1)
     return o
 
 
@@ -126,6 +149,11 @@ def dcmstack_round(rep, r, tier, tmp):
         # a leak needs an option in an earlier invocation that a later one does not give
         if all('excl' not in o for o in seq[:-1]):
             seq[0]['excl'] = ['Echo']
+        if ci % 2 == 0:
+            # a real regular expression (bounded repeat, so it contains a comma) that removes a key
+            # every file has; embedding on, so that the effect is visible in the output
+            seq[0]['excl'] = ['Echo.{0,3}Time']
+            seq[0]['embed'] = True
         seq[-1].pop('excl', None); seq[-1].pop('incl', None)
         seq[-1]['embed'] = True
         for ii, opts in enumerate(seq):
@@ -136,6 +164,10 @@ def dcmstack_round(rep, r, tier, tmp):
             d_in = os.path.join(tmp, 'in%d_%d' % (ci, ii)); os.makedirs(d_in)
             d_fr = os.path.join(tmp, 'fr%d_%d' % (ci, ii)); os.makedirs(d_fr)
             rc1, _ = run_cli_inproc(argv_of(src, d_in, opts))
+            if LEAKS:
+                rep.failure('dcmstack %s changed process-global state that later invocations see: %s' % (
+                    ' '.join(argv_of('<src>', '<dest>', opts)), LEAKS),
+                    {'suite': 'cli', 'sequence': seq[:ii + 1], 'invocation': ii, 'tag': 'cli:dcmstack:state', 'leaks': list(LEAKS)})
             rc2, _ = run_cli_fresh(argv_of(src, d_fr, opts))
             a, b = digest_dir(d_in), digest_dir(d_fr)
             case = {'suite': 'cli', 'sequence': seq[:ii + 1], 'invocation': ii, 'series': sdesc}
@@ -235,6 +267,7 @@ def nitool_round(rep, r, tier, tmp):
 
     for ci in range(n):
         case = CW.gen_wrapper_case(r, tier, canonical=True, trimmed=True)
+        case['data_kind'] = 'int32'      # files are compared byte for byte: no float -> int16 rescaling on write
         case.pop('oblique', None)
         case['affine'] = M.rand_affine(r).tolist()
         with contextlib.redirect_stdout(io.StringIO()):
